@@ -16,6 +16,8 @@ func (f HandlerFunc) ServeHTTP(w http.ResponseWriter, r *http.Request) {
 	c := &Context{}
 	c.Init(w, r)
 	f(c)
+	// commit the recorded status if the handler did not write a body (as the router does at the end of a request)
+	c.writer.ensureWriteHeader()
 }
 
 // HandlersChain middleware handlers chain definition
